@@ -1,0 +1,40 @@
+// Copyright 2019 The Wuffs Authors.
+//
+// Licensed under the Apache License, Version 2.0 <LICENSE-APACHE or
+// https://www.apache.org/licenses/LICENSE-2.0> or the MIT license
+// <LICENSE-MIT or https://opensource.org/licenses/MIT>, at your
+// option. This file may not be copied, modified, or distributed
+// except according to those terms.
+//
+// SPDX-License-Identifier: Apache-2.0 OR MIT
+
+//go:build verif
+
+package rac
+
+// VerifHook, if non-nil, is called by the goroutine that has just completed a
+// channel operation of the concurrent reader (conc_reader.go): ev names the
+// goroutine's role and the operation ("manager.send.reqc"), owner is the
+// recycle channel that identifies a Worker (or the Worker that owns a
+// buffer), a and b are payload scalars (a dRange, or keepWorking).
+//
+// It exists only in builds with the "verif" tag, for model-based trace
+// validation and schedule perturbation. Set it before creating a Reader.
+var VerifHook func(ev string, owner interface{}, a int64, b int64)
+
+func verifHook(ev string, owner chan<- *rBuffer, a int64, b int64) {
+	if h := VerifHook; h != nil {
+		if owner == nil {
+			h(ev, nil, a, b)
+		} else {
+			h(ev, owner, a, b)
+		}
+	}
+}
+
+func verifBool(b bool) int64 {
+	if b {
+		return 1
+	}
+	return 0
+}
